@@ -1,8 +1,7 @@
 import math
 from collections import namedtuple
 import numpy as np
-import pytransform3d.rotations as pr
-from ..utils import norm_vector
+from ..utils import norm_vector, plane_basis_from_normal
 from ..geometry import convert_segment_to_line
 
 
@@ -59,7 +58,7 @@ def point_to_circle(point, center, radius, normal, epsilon=1e-6):
             center + (radius / math.sqrt(sqr_len)) * diff_in_plane)
         dist = np.linalg.norm(point - closest_point_circle)
     else:  # on the line defined by center and normal of the circle
-        plane_direction = norm_vector(pr.perpendicular_to_vector(normal))
+        plane_direction = plane_basis_from_normal(normal)[0]
         closest_point_circle = center + radius * plane_direction
         dist = np.linalg.norm(point - closest_point_circle)
 
@@ -258,7 +257,7 @@ def _convert_root_to_candidate(
         closest_point_line, closest_point_circle = _line_circle_closest_points(
             old_line_point, line_direction, center, radius, normal, t)
     else:
-        u = norm_vector(pr.perpendicular_to_vector(normal))
+        u = plane_basis_from_normal(normal)[0]
         closest_point_line = center
         closest_point_circle = center + radius * u
     diff = closest_point_line - closest_point_circle
@@ -295,7 +294,7 @@ def _case_line_and_normal_parallel(
         # The line is center + t * normal, so the circle center is the
         # closest point for the line and all circle points are equidistant
         # from it.
-        u = norm_vector(pr.perpendicular_to_vector(normal))
+        u = plane_basis_from_normal(normal)[0]
         closest_point_line = center
         closest_point_circle = center + radius * u
     return closest_point_line, closest_point_circle
